@@ -296,8 +296,16 @@ func runC19(x *Ctx) {
 			if p.End != paths.EndReturn {
 				continue
 			}
-			if o, _ := p.ErrorOutcome(); o == paths.Success || len(p.Facts) == 0 {
+			o, _ := p.ErrorOutcome()
+			if o == paths.Success || len(p.Facts) == 0 {
 				continue
+			}
+			if o == paths.Delegated {
+				// "return Decrypt...(v, key)": the callee's own verdict is handed on
+				if rs := p.Results(); len(rs) == 2 && rs[1] != nil && (rs[1].String() == dec+"#1" || rs[1].String() == get+"#1" || rs[1].String() == viaBytes+"#1") {
+					nR++
+					continue
+				}
 			}
 			nR++
 			last := p.Facts[len(p.Facts)-1]
